@@ -12,8 +12,8 @@ open RbThm.ProcLen
 
 theorem case_lit (W : World) (fuel : Nat) (v : Val) (p : Pos) (sc : Scope) (off : Nat) (pre below : List CtxState)
     (s : St) (σ : Vm) (hc : CodeAt W.code off (compileExpr W.lay off (.lit v p))) (hpc : σ.pc = off)
-    (hr : Rel sc pre below s σ) :
-    ExprPost W.code sc pre below (sizeExpr (.lit v p)) (Proc.Expr.lit v p).ty off σ
+    (hr : Rel W sc pre below s σ) :
+    ExprPost W sc pre below (sizeExpr (.lit v p)) (Proc.Expr.lit v p).ty off σ
       (Proc.Ref.eval W.P (fuel + 1) (.lit v p) s) := by
   simp only [compileExpr] at hc
   have h0 : W.code[σ.pc]? = some (CInstr.loadA v, p) := by rw [hpc]; exact hc.head
@@ -22,24 +22,24 @@ theorem case_lit (W : World) (fuel : Nat) (v : Val) (p : Pos) (sc : Scope) (off 
     ⟨rfl, rfl, rfl, rfl, rfl, rfl, id⟩, trivial⟩
   simp only [Vm.step, h0]
 
-theorem case_var (W : World) (fuel : Nat) (x : Nat) (t : Ty) (p : Pos) (sc : Scope) (off : Nat)
+theorem case_var (W : World) (fuel : Nat) (x : Var) (t : Ty) (p : Pos) (sc : Scope) (off : Nat)
     (pre below : List CtxState) (s : St) (σ : Vm) (hc : CodeAt W.code off (compileExpr W.lay off (.var x t p)))
-    (hpc : σ.pc = off) (hr : Rel sc pre below s σ) (hw : EWf W.sg sc.slots (.var x t p)) :
-    ExprPost W.code sc pre below (sizeExpr (.var x t p)) (Proc.Expr.var x t p).ty off σ
+    (hpc : σ.pc = off) (hr : Rel W sc pre below s σ) (hw : EWf W.sg sc.slots (.var x t p)) :
+    ExprPost W sc pre below (sizeExpr (.var x t p)) (Proc.Expr.var x t p).ty off σ
       (Proc.Ref.eval W.P (fuel + 1) (.var x t p) s) := by
   simp only [EWf] at hw
   have hc' : CodeAt W.code σ.pc (loadVar x t p) := by rw [hpc]; exact hc
-  have st := var_steps W.code sc pre below s x t p σ hc' hr hw
+  have st := var_steps W sc pre below s x t p σ hc' hr hw
   simp only [Proc.Ref.eval, ExprPost, sizeExpr, Proc.Expr.ty]
   exact ⟨_, st, by simp [loadSt, hpc], rfl, hr.loadSt _, SameStacks.loadSt σ _,
-    RbThm.C01Sim.SimRead.typed_getD_tag hr.typed hw _⟩
+    hr.get_tag hw⟩
 
 /-- an instruction that rewrites A by a `Res`-valued operation, after an expression whose value is in A -/
-theorem after_resA (code : Code) (sc : Scope) (pre below : List CtxState) (σ τ : Vm) (s1 : St) (p : Pos)
-    (r : Res Val) (n : Nat) (off : Nat) (ty : Ty) (st : Steps code σ τ) (hp : τ.pc = off + n)
-    (hrel : Rel sc pre below s1 τ) (hss : SameStacks σ τ) (hs : Vm.step code τ = Vm.resA τ p r)
+theorem after_resA (W : World) (sc : Scope) (pre below : List CtxState) (σ τ : Vm) (s1 : St) (p : Pos)
+    (r : Res Val) (n : Nat) (off : Nat) (ty : Ty) (st : Steps W.code σ τ) (hp : τ.pc = off + n)
+    (hrel : Rel W sc pre below s1 τ) (hss : SameStacks σ τ) (hs : Vm.step W.code τ = Vm.resA τ p r)
     (htag : ∀ w, r = .ok w → w.tag = ty) :
-    ExprPost code sc pre below (n + 1) ty off σ (Proc.Ref.liftR s1 p r) := by
+    ExprPost W sc pre below (n + 1) ty off σ (Proc.Ref.liftR s1 p r) := by
   cases hr : r with
   | ok w =>
     simp only [Proc.Ref.liftR, ExprPost]
@@ -53,9 +53,9 @@ theorem after_resA (code : Code) (sc : Scope) (pre below : List CtxState) (σ τ
 
 theorem case_un (W : World) (fuel : Nat) (ih : IHle W fuel) (op : UnOp) (e : Proc.Expr) (p : Pos) (sc : Scope)
     (off : Nat) (pre below : List CtxState) (s : St) (σ : Vm)
-    (hc : CodeAt W.code off (compileExpr W.lay off (.un op e p))) (hpc : σ.pc = off) (hr : Rel sc pre below s σ)
+    (hc : CodeAt W.code off (compileExpr W.lay off (.un op e p))) (hpc : σ.pc = off) (hr : Rel W sc pre below s σ)
     (hw : EWf W.sg sc.slots (.un op e p)) :
-    ExprPost W.code sc pre below (sizeExpr (.un op e p)) (Proc.Expr.un op e p).ty off σ
+    ExprPost W sc pre below (sizeExpr (.un op e p)) (Proc.Expr.un op e p).ty off σ
       (Proc.Ref.eval W.P (fuel + 1) (.un op e p) s) := by
   simp only [EWf] at hw
   have hce : CodeAt W.code off (compileExpr W.lay off e) := by
@@ -76,7 +76,7 @@ theorem case_un (W : World) (fuel : Nat) (ih : IHle W fuel) (op : UnOp) (e : Pro
         have := hc.append_right.head
         rw [len_expr] at this
         rw [hp]; exact this
-      refine after_resA W.code sc pre below σ τ s1 p (negate v) (sizeExpr e) off e.ty st hp hrel hss ?_ ?_
+      refine after_resA W sc pre below σ τ s1 p (negate v) (sizeExpr e) off e.ty st hp hrel hss ?_ ?_
       · simp only [Vm.step, hi, ha]
       · intro w hw'
         rw [RbThm.C01Sim.SimRead.negate_tag v w hw']; exact htag
@@ -86,16 +86,16 @@ theorem case_un (W : World) (fuel : Nat) (ih : IHle W fuel) (op : UnOp) (e : Pro
         have := hc.append_right.head
         rw [len_expr] at this
         rw [hp]; exact this
-      refine after_resA W.code sc pre below σ τ s1 p (unaryNot v) (sizeExpr e) off e.ty st hp hrel hss ?_ ?_
+      refine after_resA W sc pre below σ τ s1 p (unaryNot v) (sizeExpr e) off e.ty st hp hrel hss ?_ ?_
       · simp only [Vm.step, hi, ha]
       · intro w hw'
         rw [RbThm.C01Sim.SimRead.unaryNot_tag v w hw']; exact htag
 
 theorem case_paren (W : World) (fuel : Nat) (ih : IHle W fuel) (e : Proc.Expr) (p : Pos) (sc : Scope)
     (off : Nat) (pre below : List CtxState) (s : St) (σ : Vm)
-    (hc : CodeAt W.code off (compileExpr W.lay off (.paren e p))) (hpc : σ.pc = off) (hr : Rel sc pre below s σ)
+    (hc : CodeAt W.code off (compileExpr W.lay off (.paren e p))) (hpc : σ.pc = off) (hr : Rel W sc pre below s σ)
     (hw : EWf W.sg sc.slots (.paren e p)) :
-    ExprPost W.code sc pre below (sizeExpr (.paren e p)) (Proc.Expr.paren e p).ty off σ
+    ExprPost W sc pre below (sizeExpr (.paren e p)) (Proc.Expr.paren e p).ty off σ
       (Proc.Ref.eval W.P (fuel + 1) (.paren e p) s) := by
   simp only [EWf] at hw
   simp only [compileExpr] at hc
@@ -191,8 +191,8 @@ theorem bin_tail (code : Code) (op : Op) (t : Ty) (p : Pos) (q : Nat) (τ : Vm) 
 theorem case_bin (W : World) (fuel : Nat) (ih : IHle W fuel) (op : Op) (l r : Proc.Expr) (t : Ty) (p : Pos)
     (sc : Scope) (off : Nat) (pre below : List CtxState) (s : St) (σ : Vm)
     (hc : CodeAt W.code off (compileExpr W.lay off (.bin op l r t p))) (hpc : σ.pc = off)
-    (hr : Rel sc pre below s σ) (hw : EWf W.sg sc.slots (.bin op l r t p)) :
-    ExprPost W.code sc pre below (sizeExpr (.bin op l r t p)) (Proc.Expr.bin op l r t p).ty off σ
+    (hr : Rel W sc pre below s σ) (hw : EWf W.sg sc.slots (.bin op l r t p)) :
+    ExprPost W sc pre below (sizeExpr (.bin op l r t p)) (Proc.Expr.bin op l r t p).ty off σ
       (Proc.Ref.eval W.P (fuel + 1) (.bin op l r t p) s) := by
   simp only [EWf] at hw
   obtain ⟨hwl, hwr, hop⟩ := hw
@@ -234,7 +234,7 @@ theorem case_bin (W : World) (fuel : Nat) (ih : IHle W fuel) (op : Op) (l r : Pr
     have spush : Vm.step W.code τ1 = .next τ2 := by
       have : W.code[τ1.pc]? = some (CInstr.pushA, p) := by rw [hp1]; exact hpush
       simp only [Vm.step, this]; rfl
-    have hrel2 : Rel sc pre below s1 τ2 := hrel1.same rfl rfl rfl rfl rfl rfl
+    have hrel2 : Rel W sc pre below s1 τ2 := hrel1.same rfl rfl rfl rfl rfl rfl
     have hrr := ih.self.expr sc r (off + sizeExpr l + 1) pre below s1 τ2 hcr (by simp [τ2, Vm.advance, hp1]) hrel2 hwr
     simp only
     generalize Proc.Ref.eval W.P fuel r s1 = rr at hrr ⊢
@@ -273,8 +273,8 @@ theorem case_bin (W : World) (fuel : Nat) (ih : IHle W fuel) (op : Op) (l r : Pr
 theorem case_callFn (W : World) (fuel : Nat) (ih : IHle W fuel) (f : Nat) (args : Args) (t : Ty) (p : Pos)
     (sc : Scope) (off : Nat) (pre below : List CtxState) (s : St) (σ : Vm)
     (hc : CodeAt W.code off (compileExpr W.lay off (.callFn f args t p))) (hpc : σ.pc = off)
-    (hr : Rel sc pre below s σ) (hw : EWf W.sg sc.slots (.callFn f args t p)) :
-    ExprPost W.code sc pre below (sizeExpr (.callFn f args t p)) (Proc.Expr.callFn f args t p).ty off σ
+    (hr : Rel W sc pre below s σ) (hw : EWf W.sg sc.slots (.callFn f args t p)) :
+    ExprPost W sc pre below (sizeExpr (.callFn f args t p)) (Proc.Expr.callFn f args t p).ty off σ
       (Proc.Ref.eval W.P (fuel + 1) (.callFn f args t p) s) := by
   simp only [EWf] at hw
   rw [callCode_fn] at hc
